@@ -19,7 +19,8 @@ Definition wrap_expression (ty : toktype) (tok : ExSyntax.text) : ExSyntax.text 
 Inductive rres :=
 | ROk (s : ExSyntax.text)   (* refactored source *)
 | RErr                      (* excellent.Parse returned an error *)
-| ROutside.                 (* a text literal outside the code-point model *)
+| ROutside.                 (* a text literal outside the code-point model: the tree the transformation would be
+                               applied to is not described; the driver keeps such templates out of the comparison *)
 
 Section Refactor.
 Variable isln : N -> bool.
@@ -52,7 +53,7 @@ Fixpoint refactor_tokens (toks : list (toktype * ExSyntax.text)) : ExSyntax.text
           match refactor_expression tok with
           | ROk s => (wrap_expression ty s ++ out, errs, inside)
           | RErr => (wrap_expression ty tok ++ out, S errs, inside)     (* original expression rewritten, error returned *)
-          | ROutside => (out, errs, false)
+          | ROutside => (wrap_expression ty tok ++ out, errs, false)   (* what Go writes when tx reports "unchanged" *)
           end
       | EOF_T => (out, errs, inside)
       end
